@@ -1043,7 +1043,7 @@ func TestVerifC33(t *testing.T) {
 	run := func(name string, markRevs bool, depth int, merge string) mc.Result {
 		bounds := map[string]any{"hash_slots": c33HashSlots, "identities": "a1 (uid a, owner 1, master), a2 (uid a, owner 2, slave, other device), b1 (uid b, owner 1); slot 1 carries a1 only",
 			"owner_seq_menu": "1,2 (probes with stale targets use 3); register, touch and unregister all draw from the same menu, so delayed registers/touches carry exactly the sequence of an earlier unregister", "timestamps": "connected/last-seen 100 or 102, expire now in {101,103,104}, ttl 1s",
-			"authority_menu": "terms 1,2 per slot (become newer and older), lose, rev = revision-only update of the installed identity (strictly higher RouteRevision, then the equal revision again, then a late older one)",
+			"authority_menu":    "terms 1,2 per slot (become newer and older), lose, rev = revision-only update of the installed identity (strictly higher RouteRevision, then the equal revision again, then a late older one)",
 			"stale_target_menu": "terms 1..3 except the installed one, term 0, other config epoch, other leader node, other slot id"}
 		if markRevs {
 			bounds["revision_updates_remembered"] = fmt.Sprintf("%v per authority incarnation of slot 0/1", c33RevCap)
